@@ -832,6 +832,10 @@ def _tables(case, combo, hrefs):
         t["isurl"][r] = bool(is_url(r, **IS_URL_KW))
         if c and t["isurl"][r]:
             t["canon"][r] = _exc(canon, r, strip_fragment=s)
+            # also what is_url says of the canonical form (asked by the model once
+            # links_from_html re-tests it: notes/fixes/links-from-html-rechecks-canonical-url.diff)
+            if isinstance(t["canon"][r], str) and t["canon"][r] not in t["isurl"]:
+                t["isurl"][t["canon"][r]] = bool(is_url(t["canon"][r], **IS_URL_KW))
     return t
 
 
